@@ -33,8 +33,14 @@ def main():
             viol = re.findall(r"VIOLATION property=(\S+) replay=\S*/([^/\s]+)\.json", check)
             applies = "PATCH DOES NOT APPLY" not in check and "BUILD FAILS" not in check and check != ""
             meta = json.load(open(d + "/meta.json"))
+            head = None
+            hf = f"{W}/{tag}.confirmhead.json"
+            if os.path.exists(hf):
+                h = json.load(open(hf))
+                if h.get("apply_exit") == "0" and h.get("build_exit") == "0":
+                    head = "still breaks the repaired tree" if h.get("demo_changed_exit") not in ("0", None) else "masked on the repaired tree (its demonstration passes there)"
             row = dict(name=name, property=pid, summary=meta.get("summary", ""), confirmed=ok, confirm=c,
-                       applies_to_repo=applies, caught_by=sorted(set(f"{p}:{o}" for p, o in viol)))
+                       applies_to_repo=applies, caught_by=sorted(set(f"{p}:{o}" for p, o in viol)), head=head)
             rows.append(row)
             if not ok:
                 continue
@@ -49,6 +55,8 @@ def main():
             m["confirmation"] = c
             m["applies_to_repo_head"] = applies
             m["caught_by"] = row["caught_by"]
+            if head:
+                m["on_repaired_tree"] = head
             json.dump(m, open(f"{dst}/meta.json", "w"), indent=1)
     with open(f"{OUT}/RESULTS.md", "w") as f:
         f.write("# Seeded changes: which check catches which\n\n")
@@ -59,7 +67,8 @@ def main():
         f.write("| change | confirmed | applies to /repo HEAD | caught by | what was changed |\n|---|---|---|---|---|\n")
         for r in rows:
             cb = "<br>".join(r["caught_by"]) if r["caught_by"] else ("—" if r["applies_to_repo"] else "(not run: does not apply)")
-            f.write(f"| {r['name']} | {'yes' if r['confirmed'] else 'NO'} | {'yes' if r['applies_to_repo'] else 'no'} | {cb} | {r['summary'][:300].replace('|','/')} |\n")
+            note = f" [{r['head']}]" if r.get('head') else ""
+            f.write(f"| {r['name']} | {'yes' if r['confirmed'] else 'NO'} | {'yes' if r['applies_to_repo'] else 'no'} | {cb} | {r['summary'][:300].replace('|','/')}{note} |\n")
         kept = [r for r in rows if r["confirmed"]]
         caught = [r for r in kept if r["caught_by"]]
         f.write(f"\n{len(kept)} confirmed changes kept, {len(caught)} caught by at least one check, {len(kept)-len(caught)} missed or not applicable to the current tree.\n")
